@@ -87,6 +87,7 @@ def correspondence(ctx):
                 polys = [cand]
             else:
                 polys.append(cand)
+        r.shuffle(polys)        # a rejected candidate may come BEFORE an accepted one
         s = pipeline.core_script(m, order=0, symm="symm custom %d %s" % (len(polys), " ".join(polys)), early=r.chance(1, 2))
         s += ["dm %s" % pipeline.hx(1.0), "fops"] + ["fop1 quad %d %d" % (r.below(M), r.below(M)) for _ in range(3)]
         scripts.append(s)
